@@ -566,6 +566,45 @@ func c02LoopEnds(p *load.Prog, r *oblig.Run, dec *ssa.Function, header *ssa.Basi
 			eofEdge[[2]*ssa.BasicBlock{b, b.Succs[side]}] = true
 		}
 	}
+	// a read error that is not the end of input ends Decode with that error (otherwise the loop reads the failing
+	// stream again and again, or a truncated document is returned without an error)
+	{
+		returned := false
+		for _, b := range dec.Blocks {
+			ret, ok := b.Instrs[len(b.Instrs)-1].(*ssa.Return)
+			if !ok || len(ret.Results) == 0 {
+				continue
+			}
+			ev := ret.Results[len(ret.Results)-1]
+			uses := ev == rerr
+			if c, isCall := ev.(*ssa.Call); isCall && !uses {
+				// wrapped: fmt.Errorf(..., err)
+				for _, a := range c.Call.Args {
+					if elems, ok := variadicElems(a); ok {
+						for _, e := range elems {
+							if mi, isMI := e.(*ssa.MakeInterface); isMI && mi.X == rerr {
+								uses = true
+							}
+							if e == rerr {
+								uses = true
+							}
+						}
+					}
+				}
+			}
+			if !uses {
+				continue
+			}
+			// on the side on which the error is set
+			for e := range eofEdge {
+				if len(e[1].Preds) == 1 && (e[1] == b || e[1].Dominates(b)) {
+					returned = true
+				}
+			}
+		}
+		r.Check("R02.i", "read error returned", p.Pos(calls[0].Pos()), "a read error other than the end of input ends Decode with that error", returned,
+			"Decode returns readLine's error on the side on which it is set", "no return of Decode hands back the error of readLine: a stream whose Read fails (a directory, a closed file, a broken pipe) is read again and again and Decode never returns, or a truncated document is returned with a nil error")
+	}
 	if len(eofEdge) == 0 {
 		r.Add("R02.i", "end-of-input test", p.Pos(calls[0].Pos()), "anchor").Unknown("the error of readLine is never tested")
 		return
